@@ -150,7 +150,14 @@ func C16(p *load.Prog, r *oblig.Run) {
 			o.Fail("operator name " + op.name + " is not a documented operator")
 			continue
 		}
-		if why := checkComparison(op.fn, tk, binStr, binFlt, cmpStr); why != "" {
+		why := checkComparison(op.fn, tk, binStr, binFlt, cmpStr)
+		if why != "" {
+			// the operators may share one helper that is handed the numeric and the text comparison as functions
+			if viaWhy, applies := checkComparisonViaHelper(p, op.fn, tk, binStr, binFlt, cmpStr); applies {
+				why = viaWhy
+			}
+		}
+		if why != "" {
 			o.Fail(fmt.Sprintf("the function registered for %q (%s) %s", op.name, op.fn.Name(), why))
 		} else {
 			o.OK("numeric and text branch both use " + tk.String() + " on the operands in order")
@@ -738,4 +745,146 @@ func c16Variables(p *load.Prog, r *oblig.Run) {
 	default:
 		o2.OK("the two ParseFloat errors and nothing else")
 	}
+}
+
+// closureCompares: the function literal returns  p0 tk p1  and nothing else.
+func closureCompares(v ssa.Value, tk token.Token) string {
+	var clo *ssa.Function
+	switch x := v.(type) {
+	case *ssa.MakeClosure:
+		clo, _ = x.Fn.(*ssa.Function)
+	case *ssa.Function:
+		clo = x
+	}
+	if clo == nil || len(clo.Blocks) == 0 || len(clo.Params) != 2 {
+		return "passes a comparison that cannot be resolved"
+	}
+	n := 0
+	for _, b := range clo.Blocks {
+		ret, ok := b.Instrs[len(b.Instrs)-1].(*ssa.Return)
+		if !ok || len(ret.Results) != 1 {
+			continue
+		}
+		n++
+		bo, ok := ret.Results[0].(*ssa.BinOp)
+		if !ok {
+			return "passes a comparison that does not return a single comparison of its operands"
+		}
+		if bo.Op != tk {
+			return fmt.Sprintf("compares with %s instead of %s", bo.Op, tk)
+		}
+		if bo.X != ssa.Value(clo.Params[0]) || bo.Y != ssa.Value(clo.Params[1]) {
+			return "compares its operands in the wrong order"
+		}
+	}
+	if n != 1 {
+		return "passes a comparison with several results"
+	}
+	return ""
+}
+
+// checkComparisonViaHelper: fn is  return H(left, right, numericComparison, textComparison)  where H obtains the text
+// operands from binaryStrings, tries binaryFloats on them, applies the numeric comparison to the two floats in order
+// only when both are numeric, and otherwise the text comparison through compareStrings in order. applies=false when
+// fn does not have that form.
+func checkComparisonViaHelper(p *load.Prog, fn *ssa.Function, tk token.Token, binStr, binFlt, cmpStr *ssa.Function) (string, bool) {
+	var hc *ssa.Call
+	for _, c := range su.Calls(fn) {
+		cv, ok := c.(*ssa.Call)
+		if !ok {
+			continue
+		}
+		h := cv.Call.StaticCallee()
+		if h == nil || pkgPathOf(h) != load.PkgQ || len(h.Blocks) == 0 || len(h.Params) != 4 || len(cv.Call.Args) != 4 {
+			continue
+		}
+		if hc != nil {
+			return "", false
+		}
+		hc = cv
+	}
+	if hc == nil {
+		return "", false
+	}
+	if hc.Call.Args[0] != ssa.Value(fn.Params[0]) || hc.Call.Args[1] != ssa.Value(fn.Params[1]) {
+		return "does not hand its operands on in order", true
+	}
+	// fn returns the helper's results unchanged
+	for _, b := range fn.Blocks {
+		if ret, ok := b.Instrs[len(b.Instrs)-1].(*ssa.Return); ok {
+			for _, res := range ret.Results {
+				if ex, isEx := res.(*ssa.Extract); !isEx || ex.Tuple != ssa.Value(hc) {
+					if res != ssa.Value(hc) {
+						return "does not return the result of the shared comparison helper unchanged", true
+					}
+				}
+			}
+		}
+	}
+	if why := closureCompares(hc.Call.Args[2], tk); why != "" {
+		return "numeric comparison: " + why, true
+	}
+	if why := closureCompares(hc.Call.Args[3], tk); why != "" {
+		return "text comparison: " + why, true
+	}
+	h := hc.Call.StaticCallee()
+	bs := su.CallsTo(h, binStr)
+	if len(bs) != 1 || bs[0].Call.Args[0] != ssa.Value(h.Params[0]) || bs[0].Call.Args[1] != ssa.Value(h.Params[1]) {
+		return "uses a helper that does not obtain its text operands from binaryStrings(left, right)", true
+	}
+	var sL, sR ssa.Value
+	for _, ref := range *bs[0].Referrers() {
+		if ex, ok := ref.(*ssa.Extract); ok {
+			if ex.Index == 0 {
+				sL = ex
+			} else if ex.Index == 1 {
+				sR = ex
+			}
+		}
+	}
+	bf := su.CallsTo(h, binFlt)
+	if len(bf) != 1 || bf[0].Call.Args[0] != sL || bf[0].Call.Args[1] != sR {
+		return "uses a helper that does not try the numeric comparison on the same two operands in order", true
+	}
+	var fL, fR, fOK ssa.Value
+	for _, ref := range *bf[0].Referrers() {
+		if ex, ok := ref.(*ssa.Extract); ok {
+			switch ex.Index {
+			case 0:
+				fL = ex
+			case 1:
+				fR = ex
+			case 2:
+				fOK = ex
+			}
+		}
+	}
+	nNum := 0
+	for _, c := range su.Calls(h) {
+		cv, ok := c.(*ssa.Call)
+		if !ok || cv.Call.Value != ssa.Value(h.Params[2]) {
+			continue
+		}
+		nNum++
+		if len(cv.Call.Args) != 2 || cv.Call.Args[0] != fL || cv.Call.Args[1] != fR {
+			return "uses a helper that applies the numeric comparison to the operands in the wrong order", true
+		}
+		guarded := false
+		for _, d := range h.Blocks {
+			if iff, isIf := d.Instrs[len(d.Instrs)-1].(*ssa.If); isIf && iff.Cond == fOK && d.Succs[0].Dominates(cv.Block()) {
+				guarded = true
+			}
+		}
+		if !guarded {
+			return "uses a helper that applies the numeric comparison without checking that both sides are numeric", true
+		}
+	}
+	if nNum != 1 {
+		return fmt.Sprintf("uses a helper with %d numeric comparisons (want exactly one)", nNum), true
+	}
+	cs := su.CallsTo(h, cmpStr)
+	if len(cs) != 1 || cs[0].Call.Args[0] != sL || cs[0].Call.Args[1] != sR || cs[0].Call.Args[2] != ssa.Value(h.Params[3]) {
+		return "uses a helper that does not compare the text operands in order through compareStrings with the text comparison it was given", true
+	}
+	return "", true
 }
